@@ -277,7 +277,8 @@ fn vec_case(sink: &mut Sink, s: &mut Stream, family: &str, x: &[i64], y: &[i64],
     sink.count(&format!("vec-family:{family}"));
     let inp = format!("({}, {})", zl(x), zl(y));
     sink.nontrivial(&format!("{inp}{}", outs.len()));
-    s.push(inp, coq::list(outs), json!({"family": family, "len_x": x.len(), "len_y": y.len(), "x": x, "y": y, "outs": hum}));
+    let short = |v: &[i64]| if v.len() > 3000 { json!(format!("{} x {}", v[0], v.len())) } else { json!(v) };
+    s.push(inp, coq::list(outs), json!({"family": family, "len_x": x.len(), "len_y": y.len(), "x": short(x), "y": short(y), "outs": hum}));
 }
 
 fn float_ops() -> Vec<Op> {
@@ -290,7 +291,7 @@ fn float_ops() -> Vec<Op> {
 
 fn stream_vec(sink: &mut Sink, rng: &mut Rng, args: &Args) {
     let mut s = Stream::new("vec", REQ, "chk_vec", "list Z * list Z", "list (kop * outcome xval)");
-    s.shard = 40;
+    s.shard = if args.thorough() { 100 } else { 45 };
     let lens = lengths(rng, args.thorough());
     // fixed regression inputs first: the Rust unit tests of the anchored files
     let t8: Vec<i64> = (2..10).collect();
@@ -334,7 +335,7 @@ fn stream_vec(sink: &mut Sink, rng: &mut Rng, args: &Args) {
 
         // ---- family C: cosine, power-of-two norms (and the f32 tail condition on y)
         for t in [Ty::F32, Ty::F64, Ty::F16, Ty::BF16, Ty::U8] {
-            if !(t == Ty::F32 || len <= 72 || rng.chance(1, 4)) {
+            if !(t == Ty::F32 || len <= 40 || rng.chance(1, 4)) {
                 continue;
             }
             let cap = t.maxabs().min(2048);
@@ -353,7 +354,7 @@ fn stream_vec(sink: &mut Sink, rng: &mut Rng, args: &Args) {
             vec_case(sink, &mut s, "cosine-pow2-norms", &x, &y, &ops);
         }
         // ---- family C': parallel / antiparallel vectors with integer (non power of two) norms
-        if len >= 2 && (len <= 72 || rng.chance(1, 3)) {
+        if len >= 2 && (len <= 40 || rng.chance(1, 3)) {
             let t = *rng.pick(&[Ty::F32, Ty::F64, Ty::F16, Ty::BF16, Ty::U8]);
             if let Some((x, y)) = parallel_pair(rng, len, t.maxabs().min(255), t == Ty::U8) {
                 let xn = isqrt(normsq_ref(&x)).unwrap_or(1) as i64;
@@ -378,11 +379,15 @@ fn stream_vec(sink: &mut Sink, rng: &mut Rng, args: &Args) {
             vec_case(sink, &mut s, "unequal-lengths-bytes", &xb, &yb, &[Op::L2(Ty::U8), Op::Dot(Ty::U8), Op::Hamming, Op::HammingScalar]);
         }
     }
-    // u32 overflow of the u8 kernels (debug build: panic), one long case per run
-    if args.thorough() || args.seed % 2 == 1 {
-        let n = 66052;
-        vec_case(sink, &mut s, "u8-u32-overflow", &vec![255; n], &vec![0; n], &[Op::L2(Ty::U8)]);
+    sink.add(s);
+    // u32 overflow of the u8 kernels (debug build: panic): long constant vectors, own shard
+    let mut s = Stream::new("veclong", REQ, "chk_vec", "list Z * list Z", "list (kop * outcome xval)");
+    s.shard = 1;
+    let n = 66052;
+    vec_case(sink, &mut s, "u8-u32-overflow", &vec![255; n], &vec![0; n], &[Op::L2(Ty::U8)]);
+    if args.thorough() {
         vec_case(sink, &mut s, "u8-u32-overflow", &vec![255; n], &vec![255; n], &[Op::Dot(Ty::U8)]);
+        vec_case(sink, &mut s, "u8-u32-no-overflow", &vec![255; n - 1], &vec![0; n - 1], &[Op::L2(Ty::U8)]);
     }
     sink.add(s);
 }
@@ -457,7 +462,7 @@ fn gen_rows(rng: &mut Rng, m: Metric, t: Ty, dim: usize, nrows: usize) -> Option
             }
         }
     };
-    let from = mk(rng, false)?;
+    let from = mk(rng, true)?;
     let mut to = vec![];
     for _ in 0..nrows {
         let r = if rng.chance(1, 8) { from.clone() } else { mk(rng, true)? };
@@ -471,7 +476,7 @@ fn gen_rows(rng: &mut Rng, m: Metric, t: Ty, dim: usize, nrows: usize) -> Option
 
 fn stream_batch(sink: &mut Sink, rng: &mut Rng, args: &Args) {
     let mut s = Stream::new("batch", REQ, "chk_batch", "metric * ety * list Z * list Z * nat", "outcome (list xval)");
-    s.shard = 60;
+    s.shard = 400;
     let dims: Vec<usize> = if args.thorough() { (1..=70).chain([96, 100, 127, 128, 129, 256, 300]).collect() } else { vec![1, 2, 3, 5, 7, 8, 9, 12, 15, 16, 17, 24, 31, 32, 33, 40, 63, 64, 65, 100, 128] };
     let mut push = |sink: &mut Sink, m: Metric, t: Ty, from: &[i64], to: &[i64], dim: usize, kind: &str| {
         let r = eval_batch(m, t, from, to, dim);
@@ -605,7 +610,7 @@ fn f32_array_out(a: &Float32Array) -> Vec<Option<f32>> {
 
 fn stream_arrow(sink: &mut Sink, rng: &mut Rng, args: &Args) {
     let mut s = Stream::new("arrow", REQ, "chk_arrow", "metric * aty * list Z * aty * list Z * nat * list bool", "outcome (list (option xval))");
-    s.shard = 60;
+    s.shard = 400;
     let n = args.vol(260, 2500);
     for i in 0..n {
         let m = *rng.pick(&[Metric::L2, Metric::L2, Metric::Dot, Metric::Dot, Metric::Cosine, Metric::Cosine, Metric::Hamming]);
@@ -641,6 +646,11 @@ fn stream_arrow(sink: &mut Sink, rng: &mut Rng, args: &Args) {
             continue;
         };
         let clamp = |v: Vec<i64>, ty: ATy| -> Vec<i64> { v.into_iter().map(|z| if ty == ATy::I8 { z.min(127) } else { z }).collect() };
+        // the rows must be in the exact domain of the type the kernel actually runs at
+        if dim > 0 && !to.chunks_exact(dim).all(|row| op_in_domain(&row_op(m, kt), &from, row)) {
+            sink.count("arrow:skipped-out-of-exact-domain");
+            continue;
+        }
         let (f2, t2) = (clamp(from.clone(), fty), clamp(to.clone(), tty));
         if f2 != from || t2 != to || !fty.range_ok(&from) || !tty.range_ok(&to) {
             sink.count("arrow:skipped-out-of-type-range");
@@ -729,6 +739,7 @@ fn on(o: Option<u32>) -> String {
 fn stream_argmin(sink: &mut Sink, rng: &mut Rng, args: &Args) {
     let ty = "option (N * Z) * option N * option N * option (option (N * Z) * option N * option N * option (N * Z))";
     let mut s = Stream::new("argmin", REQ, "chk_argmin", "Z * Z * Z * list fv", ty);
+    s.shard = 700;
     // ---- f32 items (key = monotone image of the bits), with NaN / inf / MAX / MIN / -0 / nulls
     let specials = [f32::NAN, f32::INFINITY, f32::NEG_INFINITY, f32::MAX, f32::MIN, 0.0, -0.0, f32::MIN_POSITIVE, 1.0, -1.0];
     let mut lists: Vec<Vec<Option<f32>>> = vec![
@@ -997,7 +1008,7 @@ fn check_assignment(sink: &mut Sink, what: &str, m: Metric, c: &[Option<i64>], d
 fn stream_member(sink: &mut Sink, rng: &mut Rng, args: &Args) {
     // ---- compute_membership_and_dist (KMeansAlgoFloat), with and without the balance bias
     let mut s = Stream::new("member", REQ, "chk_member", "ety * metric * list (option Z) * list (option Z) * nat * option (list Z)", "outcome (list (option (N * Z)))");
-    s.shard = 100;
+    s.shard = 400;
     for i in 0..args.vol(260, 3000) {
         let t = *rng.pick(&[Ty::F32, Ty::F32, Ty::F64, Ty::F16]);
         let m = *rng.pick(&[Metric::L2, Metric::L2, Metric::Dot]);
@@ -1040,7 +1051,7 @@ fn stream_member(sink: &mut Sink, rng: &mut Rng, args: &Args) {
 
     // ---- compute_partitions_arrow_array
     let mut s = Stream::new("parts", REQ, "chk_parts", "aty * aty * metric * nat * nat * list (option Z) * list (option Z)", "outcome (list (option (N * Z)))");
-    s.shard = 100;
+    s.shard = 400;
     for i in 0..args.vol(260, 3000) {
         let (cty, vty) = match rng.below(14) {
             0..=3 => (ATy::F32, ATy::F32),
@@ -1090,10 +1101,10 @@ fn stream_member(sink: &mut Sink, rng: &mut Rng, args: &Args) {
 
     // ---- compute_partition (one vector)
     let mut s = Stream::new("part1", REQ, "chk_part1", "ety * metric * list (option Z) * list (option Z)", "outcome (option N)");
-    s.shard = 200;
+    s.shard = 400;
     // ---- kmeans_find_partitions (+ _arrow_array)
     let mut sf = Stream::new("find", REQ, "chk_find", "ety * metric * list (option Z) * list (option Z) * nat", "outcome (list (N * xval))");
-    sf.shard = 100;
+    sf.shard = 400;
     for i in 0..args.vol(260, 3000) {
         let t = *rng.pick(&[Ty::F32, Ty::F32, Ty::F64, Ty::F16]);
         let m = if i % 23 == 9 { Metric::Cosine } else { *rng.pick(&[Metric::L2, Metric::Dot]) };
